@@ -23,4 +23,6 @@ def run(ck):
     relay.check_copy_half_abort(ck)
     ck.plans.append(accesslog.replay_plan)
     accesslog.spec_log_thread(ck, nevents=3 if ck.tier == 'quick' else 4)
-    ck.post_filter = lambda o: o.label.startswith('C16/') or o.status in ('undecided', 'vacuous', 'inconclusive')
+    # "with the ... source ... it actually used": the peer address every listener records (shared with C02)
+    dispatch.spec_source_address_mapping(ck)
+    ck.post_filter = lambda o: o.label.startswith(('C16/', 'C02/source-address/')) or o.status in ('undecided', 'vacuous', 'inconclusive')
